@@ -38,7 +38,10 @@ func (e *env) randomOp() {
 	v := r.Intn(2)
 	app := e.c.App
 	e.bk = []uint64{1, 1, 2}[r.Intn(3)]
-	pool := []string{"sp1", "sp1", "sp2"}[r.Intn(3)]
+	pool := []string{"sp1", "sp1", "sp10"}[r.Intn(3)]
+	e.coll = []string{"coll1", "coll1", "coll10"}[r.Intn(3)]
+	e.dapp = []string{"dapp1", "dapp1", "dapp10"}[r.Intn(3)]
+	e.rr = []string{"rr/node1", "rr/node10"}[r.Intn(2)]
 	if r.Chance(18) {
 		e.settlePending(u)
 		return
@@ -73,7 +76,7 @@ func (e *env) randomOp() {
 		e.spUpdate(pool, r.Range(1, 900), r.Chance(30))
 	case 46:
 		e.collUpdate([][]collectivestypes.WeightedSpendingPool{
-			{{Name: "sp2", Weight: sdk.OneDec()}},
+			{{Name: "sp10", Weight: sdk.OneDec()}},
 			{{Name: "sp1", Weight: sdk.NewDecWithPrec(5, 1)}, {Name: "sp1", Weight: sdk.NewDecWithPrec(5, 1)}},
 			{}}[r.Intn(3)], []uint64{14400, 20000}[r.Intn(2)])
 	case 47:
@@ -90,7 +93,12 @@ func (e *env) randomOp() {
 			holder = u // usually holds too little: must be refused
 		}
 		if r.Chance(40) {
-			e.bankSend(1, u, "rr/node1", 6_000_000_000_000) // hand more than half to somebody else first
+			// hand more than half to somebody else first (not to a registered RR holder: a holder of more than half who is
+			// listed twice through the prefix collision makes IncreaseRecoveryTokenUnderlying panic in BeginBlock - C06's domain)
+			if u == 4 || u == 5 {
+				u = e.live[0]
+			}
+			e.bankSend(1, u, "rr/node1", 6_000_000_000_000)
 			holder = u
 		}
 		e.rotateValidator(1, holder)
@@ -99,7 +107,7 @@ func (e *env) randomOp() {
 			e.rotateAccount(u)
 		}
 	case 40:
-		e.multiDeposit(u, [][]string{{"sp1", "sp1"}, {"sp1", "sp2"}, {"sp2", "sp1", "sp2"}, {"sp1", "nosuchpool"}}[r.Intn(4)], []string{"ukex", "ubtc"}[r.Intn(2)], e.pickAmt())
+		e.multiDeposit(u, [][]string{{"sp1", "sp1"}, {"sp1", "sp10"}, {"sp10", "sp1", "sp10"}, {"sp1", "nosuchpool"}}[r.Intn(4)], []string{"ukex", "ubtc"}[r.Intn(2)], e.pickAmt())
 	case 41:
 		e.multiDelegate(u, v, stakable[r.Intn(2)], e.pickAmt(), 2+r.Intn(2))
 	case 30, 31:
@@ -267,7 +275,16 @@ func (e *env) randomOp() {
 	case 26:
 		e.bankSend(u, e.live[r.Intn(len(e.live))], natives[r.Intn(3)], e.pickAmt())
 	case 27:
-		e.recBurn(1, r.Range(1, 1_000_000_000_000))
+		switch r.Intn(4) {
+		case 0:
+			e.recBurn(map[string]int{"rr/node1": 1, "rr/node10": 0}[e.rr], r.Range(1, 1_000_000_000_000))
+		case 1:
+			e.rrRegister(4) // a4 holds a little of both tokens: a second call registers him for the second one
+		case 2:
+			e.rrRegister(5)
+		default:
+			e.rrClaim([]int{4, 5, u}[r.Intn(3)])
+		}
 	case 28:
 		e.ubi(uint64(r.Range(1, 50))*[]uint64{1, 1, 100000}[r.Intn(3)], r.Chance(40))
 	case 29:
@@ -378,14 +395,19 @@ func (e *env) settlePending(u int) {
 			}
 		}
 	case 4:
-		ccs := app.CollectivesKeeper.GetCollectiveContributers(ctx, "coll1")
+		var ccs []collectivestypes.CollectiveContributor
+		for _, cc := range app.CollectivesKeeper.GetAllCollectiveContributers(ctx) {
+			if cc.Name == e.coll {
+				ccs = append(ccs, cc)
+			}
+		}
 		if len(ccs) > 0 {
 			if who, ok := e.indexOf(ccs[r.Intn(len(ccs))].Address); ok {
 				e.collWithdraw(who)
 			}
 		}
 	default:
-		for _, pl := range []string{"sp1", "sp2"} {
+		for _, pl := range []string{"sp1", "sp10"} {
 			for _, ci := range app.SpendingKeeper.GetPoolClaimInfos(ctx, pl) {
 				if who, ok := e.indexOf(ci.Account); ok && r.Bool() {
 					e.spClaim(who, pl)
@@ -487,7 +509,7 @@ func scenarioProposals(e *env) {
 	e.withdrawProposal("sp1", []int{3, 3}, coins("ukex", 77))                // the same beneficiary twice: paid twice, recorded twice
 	e.withdrawProposal("sp1", []int{}, coins("ukex", 77))                    // nobody
 	e.withdrawProposal("sp1", []int{4}, sdk.Coins{coin("ukex", 5), coin("ukex", 6)}) // a denomination twice: must fail as a whole
-	e.withdrawProposal("sp2", []int{0, 3, 0}, coins("ukex", 1_234))
+	e.withdrawProposal("sp10", []int{0, 3, 0}, coins("ukex", 1_234))
 	e.withdrawProposal("sp1", []int{3, 4}, coins("ukex", 1_000_000).Add(coin("ubtc", 70_000)))
 	e.withdrawProposal("sp1", []int{0, 3, 4}, coins("ukex", 333))
 	e.withdrawProposal("sp1", []int{3, 5}, coins("ukex", 5)) // a5 is no beneficiary: the first payment must be rolled back
@@ -506,7 +528,7 @@ func scenarioProposals(e *env) {
 	e.end()
 	e.begin(3_600, 1)
 	e.distributionProposal("sp1")
-	e.distributionProposal("sp2") // a0 is a beneficiary by account and by role, a3 is listed twice
+	e.distributionProposal("sp10") // a0 is a beneficiary by account and by role, a3 is listed twice
 	e.spClaim(4, "sp1")
 	e.basketBurn(2, 100_000)
 	e.collSendDonation(5, coins("ukex", 10))
@@ -589,7 +611,7 @@ func scenarioEscrows(e *env) {
 	e.dappUpsert(&d) // drafted before the reclaim
 	e.spUpdate("sp1", 250, true)
 	e.basketEdit(3, 2)
-	e.collUpdate([]collectivestypes.WeightedSpendingPool{{Name: "sp2", Weight: sdk.OneDec()}}, 14400)
+	e.collUpdate([]collectivestypes.WeightedSpendingPool{{Name: "sp10", Weight: sdk.OneDec()}}, 14400)
 	e.slash(0, 10)
 	e.end()
 	e.begin(700_000, 0)
@@ -711,7 +733,7 @@ func scenarioBoundaries(e *env) {
 		e.spClaim(3, "sp1")
 		e.spClaim(4, "sp1")
 		e.spClaim(0, "sp1")
-		e.distributionProposal("sp2")
+		e.distributionProposal("sp10")
 		e.withdrawProposal("sp1", []int{3, 4, 0}[:1+int(dt%3)], coins("ukex", dt).Add(coin("ubtc", dt+2)))
 	}
 	// collectives: contributions of odd amounts, donation fractions on the .5 boundary, withdrawals
@@ -729,6 +751,56 @@ func scenarioBoundaries(e *env) {
 	e.collWithdraw(5)
 	e.collWithdraw(3)
 	e.end()
+}
+
+// identifiers that are prefixes of one another (rr/node1 - rr/node10, sp1 - sp10, coll1 - coll10, dapp1 - dapp10): an account
+// holding and registered for both recovery tokens, both validators rewarded over several blocks, contributors and bonders of
+// both collectives / dApps, removal of the shorter-named collective
+func scenarioPrefixes(e *env) {
+	e.setup()
+	e.begin(5, 0)
+	e.rrRegister(4)
+	e.rrRegister(4)
+	e.rrRegister(5)
+	e.delegate(4, 0, "ukex", 3_000_000)
+	e.delegate(5, 0, "ukex", 5_000_000)
+	e.coll = "coll10"
+	e.collContribute(4, "v1/ukex", 1_000_001)
+	e.coll = "coll1"
+	e.collContribute(5, "v1/ukex", 2_000_003)
+	e.dapp = "dapp10"
+	e.dappBond(5, 7_000_001)
+	e.dapp = "dapp1"
+	e.dappBond(4, 9_000_003)
+	e.spDepositCoins(2, "sp10", coins("ukex", 1_000_003).Add(coin("ubtc", 77)))
+	e.spRegister(4, "sp1")
+	e.end()
+	for b := 0; b < 6; b++ { // both validators propose and are paid: their rewards go to the recovery module
+		e.begin(600, b%2)
+		if b == 3 {
+			e.rrClaim(4)
+			e.spClaim(4, "sp1")
+			e.distributionProposal("sp10")
+		}
+		e.end()
+	}
+	e.begin(5, 0)
+	e.rrClaim(4)
+	e.rrClaim(5)
+	e.rr = "rr/node10"
+	e.recBurn(4, 1_000_000)
+	e.rr = "rr/node1"
+	e.recBurn(4, 500_000)
+	e.collRemove() // coll1: must not touch coll10's contributors
+	e.coll = "coll10"
+	e.collWithdraw(4)
+	e.collWithdraw(3)
+	e.dapp = "dapp10"
+	e.dappReclaim(5, 1_000_001)
+	e.end()
+	e.begin(700_000, 1) // dApp bootstraps end: refunds by dApp name
+	e.end()
+	e.reimport()
 }
 
 // layer2 MintIssueTx mints the native token
@@ -779,7 +851,7 @@ func main() {
 	for _, sc := range []struct {
 		name string
 		f    func(*env)
-	}{{"scenario:slash_then_redeem", scenarioSlash}, {"scenario:reward_rounding", scenarioRounding}, {"scenario:native_issue", scenarioNativeIssue}, {"scenario:proposal_payouts", scenarioProposals}, {"scenario:rotation_reimport", scenarioRotation}, {"scenario:escrows_interleaved", scenarioEscrows}, {"scenario:rounding_boundaries", scenarioBoundaries}} {
+	}{{"scenario:slash_then_redeem", scenarioSlash}, {"scenario:reward_rounding", scenarioRounding}, {"scenario:native_issue", scenarioNativeIssue}, {"scenario:proposal_payouts", scenarioProposals}, {"scenario:rotation_reimport", scenarioRotation}, {"scenario:escrows_interleaved", scenarioEscrows}, {"scenario:rounding_boundaries", scenarioBoundaries}, {"scenario:prefix_collisions", scenarioPrefixes}} {
 		e := newEnv(seed, dist)
 		if sc.name == "scenario:rounding_boundaries" {
 			e = newEnvN(seed, dist, 8, 8)
